@@ -1,6 +1,7 @@
 //! Solver harnesses (Kani) for rust-debruijn, properties C02..C18.
 //! Generic check bodies live in the modules below; the concrete `#[kani::proof]`
 //! instantiations are generated into `gen.rs` by /verif/tools/spec.py on every run.
+#![cfg_attr(kani, feature(allocator_api))]
 #![allow(clippy::all)]
 #![allow(dead_code, unused_imports, non_snake_case)]
 
@@ -28,6 +29,10 @@ pub mod msp_ops;
 pub mod step_ops;
 #[cfg(kani)]
 pub mod filter_ops;
+#[cfg(kani)]
+pub mod walk_ops;
+#[cfg(kani)]
+pub mod export_ops;
 #[cfg(kani)]
 pub mod stubs;
 #[cfg(kani)]
